@@ -483,7 +483,7 @@ func init() {
 	register(&Prop{
 		ID: "C19", Level: "model_checking",
 		Technique: "stateless model checking of Close() racing with requests, lookups, establishment and retries on the real client over a simulated cluster: Close position enumerated over the first server-side attempts x schedules up to a deviation bound; quiescence observer for late work, open connections and leftover threads",
-		Rule: "units = layout {two servers, one shared connection} x environment {healthy, servers slow, retry-later, ZooKeeper errors, meta retry-later, probe refused} x 1-2 concurrent requests x cold / partly warm cache x Close() (every second unit: twice) fired immediately or after the k-th server-side attempt, k = 0..6; schedules with <=1 (thorough 2-3) deviations. Oracle: requests return nil or a client-closed error within one back-off step of Close, a later call is refused at once, and after all calls returned: no connection left open, no ZooKeeper lookup / dial / request started, no client thread still running (observed for 2 h of virtual time). Non-trivial = at least one non-default scheduling choice. Tier W additionally: Close() starts at EVERY scheduling step of a thread running client code of one request (thorough: two), answered or held in flight by the servers (vrt.GoInterrupt: the event's thread is created waiting for that step and is the default choice there, so its position is a parameter of the unit and costs no deviation), with <=1 (thorough 2) further deviations for the held ones.",
+		Rule: "units = layout {two servers, one shared connection} x environment {healthy, servers slow, retry-later, ZooKeeper errors, meta retry-later, probe refused} x 1-2 concurrent requests x cold / partly warm cache x Close() (every second unit: twice) fired immediately or after the k-th server-side attempt, k = 0..6; schedules with <=1 (thorough 2-3) deviations. Oracle: requests return nil or a client-closed error within one back-off step of Close, a later call is refused at once, and after all calls returned: no connection left open, no ZooKeeper lookup / dial / request started, no client thread still running (observed for 2 h of virtual time). Non-trivial = at least one non-default scheduling choice. Tier W additionally: Close() starts at EVERY scheduling step of a thread running client code of one request (thorough: two), answered or held in flight by the servers (vrt.GoInterrupt: the event's thread is created waiting for that step and is the default choice there, so its position is a parameter of the unit and costs no deviation), with <=1 further deviation for the held ones (thorough: for all).",
 		Assumptions: []string{"tier L: 'connection closed' = the simulated region client received Close or failed"},
 		Quick:       150 * time.Second, Thorough: 25 * time.Minute,
 		Units: c19Units,
